@@ -3,6 +3,7 @@ package c12
 import (
 	"fmt"
 	"math"
+	"sort"
 	"strings"
 
 	"verifharness/kit"
@@ -223,40 +224,64 @@ func genJoin(r *kit.Rand, size int) []string {
 	if r.Chance(1, 6) {
 		silent = r.Intn(n)
 	}
+	lagging := -1
+	if r.Chance(1, 4) {
+		lagging = r.Intn(n) // this parent skips most slots (gaps): the others pass it
+	}
 	withBars := r.Chance(1, 4)
-	for i := range seqs {
-		t := base + int64(r.Intn(4))*unit
-		ln := r.Intn(size + 1)
-		if i == silent {
-			ln = 0
-		}
-		for k := 0; k < ln; k++ {
-			t += int64(kit.Pick(r, []int{0, 0, 0, 1, 1, 3, 5, 12})) * unit
-			h := kit.Pick(r, hosts)
-			tags := "h=" + kit.Esc(h)
-			if r.Chance(1, 3) {
-				tags += ",z=" + kit.Pick(r, []string{"p", "q"})
+	// a shared timeline of slots; every parent takes each (slot, host) 0, 1 or 2 times, so that the same
+	// rounded time occurs in several parents (pairing by occurrence), with gaps and duplicates
+	t := base + int64(r.Intn(4))*unit
+	for slot := 0; slot < size; slot++ {
+		t += int64(kit.Pick(r, []int{0, 1, 1, 2, 3, 5, 12})) * unit
+		for _, h := range hosts {
+			if len(hosts) > 1 && r.Chance(1, 3) {
+				continue
 			}
-			if !grouped && r.Chance(1, 2) {
-				tags = "-"
-			}
-			it := jItem{t: t, tags: tags}
-			if withBars && r.Chance(1, 5) {
-				it.bar = true
-			} else {
-				it.fields = fmt.Sprintf("v=i:%d", id)
-				switch r.Intn(6) {
-				case 0:
-					it.fields += ",w=f:" + kit.F64(float64(id)/4)
-				case 1:
-					it.fields += ",s=s:" + kit.Esc(fmt.Sprintf("p %d", id))
-				case 2:
-					it.fields = fmt.Sprintf("b=b:1,v=i:%d", id)
+			for i := 0; i < n; i++ {
+				if i == silent {
+					continue
 				}
-				id++
+				cnt := kit.Pick(r, []int{0, 1, 1, 1, 1, 2})
+				if i == lagging && r.Chance(2, 3) {
+					cnt = 0
+				}
+				for k := 0; k < cnt; k++ {
+					tt := t
+					if tol > 1 && r.Chance(1, 2) { // jitter inside (or just across) the tolerance window
+						tt += int64(r.Intn(int(tol))) - tol/2
+					}
+					tags := "h=" + kit.Esc(h)
+					if r.Chance(1, 3) {
+						tags += ",z=" + kit.Pick(r, []string{"p", "q"})
+					}
+					if !grouped && r.Chance(1, 2) {
+						tags = "-"
+					}
+					it := jItem{t: tt, tags: tags}
+					if withBars && r.Chance(1, 5) {
+						it.bar = true
+					} else {
+						it.fields = fmt.Sprintf("v=i:%d", id)
+						switch r.Intn(6) {
+						case 0:
+							it.fields += ",w=f:" + kit.F64(float64(id)/4)
+						case 1:
+							it.fields += ",s=s:" + kit.Esc(fmt.Sprintf("p %d", id))
+						case 2:
+							it.fields = fmt.Sprintf("b=b:1,v=i:%d", id)
+						}
+						id++
+					}
+					seqs[i] = append(seqs[i], it)
+				}
 			}
-			seqs[i] = append(seqs[i], it)
 		}
+	}
+	for i := range seqs {
+		// every parent delivers in time order
+		sort.SliceStable(seqs[i], func(a, b int) bool { return seqs[i][a].t < seqs[i][b].t })
+		ln := len(seqs[i])
 		if ln >= 2 && r.Chance(1, 15) { // out-of-order parent: outside the property's hypothesis, tie only
 			a := r.Intn(ln - 1)
 			seqs[i][a].t, seqs[i][a+1].t = seqs[i][a+1].t, seqs[i][a].t
